@@ -3,7 +3,7 @@
    Z, N, positive and nat stay the extracted inductive datatypes. No Extract Constant. *)
 From Coq Require Extraction.
 From Coq Require Import ExtrOcamlBasic.
-From Walleye Require Import Model.TextMove Model.Eval Spec.Chess Spec.Abs Spec.FenPrint.
+From Walleye Require Import Model.TextMove Model.Eval Model.Search Model.TimeControl Model.Uci Spec.Minimax Spec.Chess Spec.Abs Spec.FenPrint.
 
 
 Extraction "walleye_model.ml"
@@ -12,4 +12,5 @@ Extraction "walleye_model.ml"
   abs desc hash rep_ok wf_cells kings_cached
   legal_moves legal_captures pseudo_moves apply attacked in_check king_sq legal_position is_capture promotes
   is_checkmate is_stalemate mate_in mated_in pt_of_sq sq_of_pt all_sq pget
+  root_values negamax negamax_ab get_best_move stable_sort_desc quiesce alpha_beta new_search calculate_time_slice parse_go_command clean_input step run
   print_fen parse_signed parse_unsigned is_whitespace utf8_len trim_newline split_on.
